@@ -44,6 +44,10 @@ def one_mutant(pid, mut):
     if n != 1:
         return ('STALE', f'old text occurs {n} times in {rel}')
     new_src = src.replace(mut['old'], mut['new'])
+    for e in mut.get('also_edits', []):  # further replacements in the same file
+        if new_src.count(e['old']) != 1:
+            return ('STALE', f"also_edits: old text occurs {new_src.count(e['old'])} times in {rel}")
+        new_src = new_src.replace(e['old'], e['new'])
     if rel.endswith('.py'):
         try:
             ast.parse(new_src)
@@ -62,6 +66,11 @@ def one_mutant(pid, mut):
                 fh.write(extra['content'])
         rc, out = run_check(pid, tmp)
         want = mut.get('expect_rule')
+        if mut.get('expect') == 'pass':
+            # behaviour-preserving refactor the check is expected to see through: must decide "holds"
+            if rc != 0 or 'VIOLATION property=' in out:
+                return ('FALSE-ALARM' if rc == 1 else 'DECLINED', out[-1500:])
+            return ('CAUGHT', '')
         if mut.get('expect') == 'silent':
             # behaviour-preserving refactor: the check may pass or decline (exit 2) but must never alarm
             if rc == 1 or 'VIOLATION property=' in out:
@@ -110,7 +119,7 @@ def main(argv):
                 print(f'{pid} clean tree: exit 0')
         for pid, mut, fut in futs:
             status, msg = fut.result()
-            if status == 'CAUGHT' and mut.get('expect') == 'silent':
+            if status == 'CAUGHT' and mut.get('expect') in ('silent', 'pass'):
                 status = 'SILENT-OK'
             print(f'{pid} {mut["name"]}: {status}' + (f' (expects {mut.get("expect_rule")})' if status == 'CAUGHT' else ''))
             if status == 'SILENT-OK':
